@@ -104,7 +104,7 @@ def run_replay(scenarios, timeout=600):
                 f.write(json.dumps(sc, ensure_ascii=False) + "\n")
         p = subprocess.run([REPLAY_BIN, path], stdout=subprocess.PIPE, stderr=subprocess.PIPE,
                            timeout=timeout, env=env_with())
-        lines = [l for l in p.stdout.decode("utf-8", "replace").splitlines() if l.strip()]
+        lines = [l for l in p.stdout.decode("utf-8", "replace").split("\n") if l.strip()]      # not splitlines(): U+2028 etc. occur in texts
         res = [json.loads(l) for l in lines]
         if len(res) != len(scenarios):
             raise Inconclusive("replay driver returned %d results for %d scenarios (rc=%s): %s" % (
